@@ -5,6 +5,7 @@ package main
 
 import (
 	"fmt"
+	"os"
 	"go/token"
 	"go/types"
 	"strings"
@@ -101,14 +102,16 @@ func (x *Exec) copyBuiltin(st *State, i *ssa.Call, args []Val) Val {
 	n := int(sl.U64())
 	elemT := i.Call.Args[0].Type().Underlying().(*types.Slice).Elem()
 	es := sizeOf(elemT)
+	stride := strideOf(elemT)
+	emo := memOffsOf(elemT)
 	ss := cellsOf(elemT)
 	// number copied = min(dl, n)
 	cnt := Ite(ULT(dl, BV(int64(n), 64)), dl, BV(int64(n), 64))
 	for k := 0; k < n; k++ {
 		cond := ULT(BV(int64(k), 64), dl)
 		for c := 0; c < es; c++ {
-			so := BVAdd(src.C[1], BV(int64(k*es+c), 64))
-			do := BVAdd(dst.C[1], BV(int64(k*es+c), 64))
+			so := BVAdd(src.C[1], BV(int64(k*stride+emo[c]), 64))
+			do := BVAdd(dst.C[1], BV(int64(k*stride+emo[c]), 64))
 			h := x.heapOf(st, ss[c])
 			sv := Select(Select(h, src.C[0]), so)
 			old := Select(Select(h, dst.C[0]), do)
@@ -179,6 +182,18 @@ func (x *Exec) callFn(st *State, fn *ssa.Function, bind []Val, args []Val, pos t
 			return x.quantifier(st, fn.Name(), args)
 		case "sep":
 			return x.sepIntrinsic(st, args)
+		case "blockSep":
+			ra, rb := x.regionOf(args[0]), x.regionOf(args[1])
+			if ra == nil || rb == nil {
+				x.fail("blockSep: arguments must be pointers or slices")
+			}
+			var bs []*Term
+			for ta := 0; ta <= ra.MaxTag; ta++ {
+				for tb := 0; tb <= rb.MaxTag; tb++ {
+					bs = append(bs, Neq(BVAdd(ra.Blk, BV(int64(ta), 32)), BVAdd(rb.Blk, BV(int64(tb), 32))))
+				}
+			}
+			return Val{C: []*Term{And(bs...)}}
 		case "sameSlice":
 			a, b := args[0], args[1]
 			if a.If == nil || b.If == nil || len(a.If.V.C) != 4 || len(b.If.V.C) != 4 {
@@ -280,7 +295,13 @@ func (x *Exec) sepIntrinsic(st *State, args []Val) Val {
 }
 
 func regionsDisjoint(a, b Region) *Term {
-	return Or(Neq(a.Blk, b.Blk), ULE(BVAdd(a.Off, a.N), b.Off), ULE(BVAdd(b.Off, b.N), a.Off),
+	var bs []*Term
+	for ta := 0; ta <= a.MaxTag; ta++ {
+		for tb := 0; tb <= b.MaxTag; tb++ {
+			bs = append(bs, Neq(BVAdd(a.Blk, BV(int64(ta), 32)), BVAdd(b.Blk, BV(int64(tb), 32))))
+		}
+	}
+	return Or(And(bs...), ULE(BVAdd(a.Off, a.N), b.Off), ULE(BVAdd(b.Off, b.N), a.Off),
 		Eq(a.N, BV(0, 64)), Eq(b.N, BV(0, 64)))
 }
 
@@ -294,11 +315,11 @@ func (x *Exec) regionOf(v Val) *Region {
 func regionOfTyped(t types.Type, v Val) *Region {
 	switch u := t.Underlying().(type) {
 	case *types.Pointer:
-		n := sizeOf(u.Elem())
-		return &Region{Blk: v.C[0], Off: v.C[1], N: BV(int64(n), 64), Const: n, Sorts: cellsOf(u.Elem()), ElemT: u.Elem()}
+		n := spanOf(u.Elem())
+		return &Region{Blk: v.C[0], Off: v.C[1], N: BV(int64(n), 64), Const: n, Sorts: cellsOf(u.Elem()), Offs: memOffsOf(u.Elem()), Tags: memTagsOf(u.Elem()), MaxTag: maxTagOf(u.Elem()), ElemT: u.Elem()}
 	case *types.Slice:
-		es := sizeOf(u.Elem())
-		return &Region{Blk: v.C[0], Off: v.C[1], N: BVMul(v.C[3], BV(int64(es), 64)), ElemSz: es, Sorts: cellsOf(u.Elem()), ElemT: u.Elem()}
+		es := strideOf(u.Elem())
+		return &Region{Blk: v.C[0], Off: v.C[1], N: BVMul(v.C[3], BV(int64(es), 64)), ElemSz: es, Sorts: cellsOf(u.Elem()), Offs: memOffsOf(u.Elem()), Tags: memTagsOf(u.Elem()), MaxTag: maxTagOf(u.Elem()), ElemT: u.Elem()}
 	}
 	return nil
 }
@@ -323,56 +344,67 @@ func (x *Exec) havocRegion(st *State, r Region, name string) {
 		// (plus a frame axiom) instead of a chain of stores, and name the cells for models
 		var paths []string
 		cellPaths(r.ElemT, "", &paths)
-		arrs := map[*Sort]*Term{}
-		for _, s := range r.Sorts {
-			if _, ok := arrs[s]; ok {
+		type ts struct {
+			tag int
+			s   *Sort
+		}
+		arrs := map[ts]*Term{}
+		for ci, s := range r.Sorts {
+			key := ts{r.Tags[ci], s}
+			if _, ok := arrs[key]; ok {
 				continue
 			}
+			bt := BVAdd(r.Blk, BV(int64(key.tag), 32))
 			h := x.heapOf(st, s)
-			inner := Select(h, r.Blk)
+			inner := Select(h, bt)
 			ninner := Fresh(name+"!arr", ArrS(BV64, s))
 			o := Fresh("o", BV64)
 			in := And(ULE(r.Off, o), ULT(o, BVAdd(r.Off, r.N)))
 			ax := ForallPat([]*Term{o}, Implies(Not(in), Eq(Select(ninner, o), Select(inner, o))), []*Term{Select(ninner, o)})
 			x.assume(True(), ax)
-			st.Heap[s] = Store(h, r.Blk, ninner)
-			arrs[s] = ninner
+			st.Heap[s] = Store(h, bt, ninner)
+			arrs[key] = ninner
 		}
-		for k := 0; k < r.Const; k++ {
+		for k := range r.Sorts {
 			p := ""
 			if k < len(paths) {
 				p = paths[k]
 			}
-			x.assume(True(), Eq(Fresh(name+p, r.Sorts[k]), Select(arrs[r.Sorts[k]], BVAdd(r.Off, BV(int64(k), 64)))))
+			x.assume(True(), Eq(Fresh(name+p, r.Sorts[k]), Select(arrs[ts{r.Tags[k], r.Sorts[k]}], BVAdd(r.Off, BV(int64(r.Offs[k]), 64)))))
 		}
 		return
 	}
 	if r.Const > 0 {
 		var paths []string
 		cellPaths(r.ElemT, "", &paths)
-		for k := 0; k < r.Const; k++ {
+		for k := range r.Sorts {
 			p := ""
 			if k < len(paths) {
 				p = paths[k]
 			}
-			x.storeHeapCell(st, r.Blk, BVAdd(r.Off, BV(int64(k), 64)), Fresh(name+p, r.Sorts[k]))
+			x.storeHeapCell(st, BVAdd(r.Blk, BV(int64(r.Tags[k]), 32)), BVAdd(r.Off, BV(int64(r.Offs[k]), 64)), Fresh(name+p, r.Sorts[k]))
 		}
 		return
 	}
-	seen := map[*Sort]bool{}
-	for _, s := range r.Sorts {
-		if seen[s] {
+	type tsk struct {
+		tag int
+		s   *Sort
+	}
+	seen := map[tsk]bool{}
+	for ci, s := range r.Sorts {
+		if seen[tsk{r.Tags[ci], s}] {
 			continue
 		}
-		seen[s] = true
+		seen[tsk{r.Tags[ci], s}] = true
 		h := x.heapOf(st, s)
-		inner := Select(h, r.Blk)
+		rblk := BVAdd(r.Blk, BV(int64(r.Tags[ci]), 32))
+		inner := Select(h, rblk)
 		ninner := Fresh(name+"!arr", ArrS(BV64, s))
 		o := Fresh("o", BV64)
 		in := And(ULE(r.Off, o), ULT(o, BVAdd(r.Off, r.N)))
 		ax := ForallPat([]*Term{o}, Implies(Not(in), Eq(Select(ninner, o), Select(inner, o))), []*Term{Select(ninner, o)})
 		x.assume(True(), ax)
-		st.Heap[s] = Store(h, r.Blk, ninner)
+		st.Heap[s] = Store(h, rblk, ninner)
 	}
 }
 
@@ -399,7 +431,7 @@ func (x *Exec) callContract(st *State, fi *FuncInfo, args []Val, pos token.Pos, 
 		}
 		if sl, ok := v.If.T.Underlying().(*types.Slice); ok {
 			// modifies s[*]: the elements [0, len)
-			es := sizeOf(sl.Elem())
+			es := strideOf(sl.Elem())
 			r.N = BVMul(v.If.V.C[2], BV(int64(es), 64))
 		}
 		regs = append(regs, *r)
@@ -414,7 +446,11 @@ func (x *Exec) callContract(st *State, fi *FuncInfo, args []Val, pos token.Pos, 
 				var alts []*Term
 				alts = append(alts, ULT(r.Blk, BV(localBlkLimit, 32)), Eq(r.N, BV(0, 64)))
 				for _, cr := range x.regions {
-					alts = append(alts, And(Eq(r.Blk, cr.Blk), ULE(cr.Off, r.Off), ULE(BVAdd(r.Off, r.N), BVAdd(cr.Off, cr.N)), ULE(r.Off, BVAdd(r.Off, r.N))))
+					var bs []*Term
+					for t := 0; t <= cr.MaxTag; t++ {
+						bs = append(bs, Eq(r.Blk, BVAdd(cr.Blk, BV(int64(t), 32))))
+					}
+					alts = append(alts, And(Or(bs...), ULE(cr.Off, r.Off), ULE(BVAdd(r.Off, r.N), BVAdd(cr.Off, cr.N)), ULE(r.Off, BVAdd(r.Off, r.N))))
 				}
 				x.oblige("frame", fmt.Sprintf("call:%s/frame%d", key, ri+1), []string{"C04"}, pos, st, Or(alts...), "callee's modifies set outside the caller's")
 			}
@@ -425,27 +461,34 @@ func (x *Exec) callContract(st *State, fi *FuncInfo, args []Val, pos token.Pos, 
 	fp := x.footprint(st, fi, args)
 	ufn := "F!" + sanitize(key)
 	for ri, r := range regs {
-		if r.Const > 0 {
-			for k := 0; k < r.Const; k++ {
+		if r.Const > 0 && !symbolicBase(r.Off) {
+			for k := range r.Sorts {
 				v := UF(fmt.Sprintf("%s!m%d_%d", ufn, ri+1, k), r.Sorts[k], fp...)
-				x.storeHeapCell(st, r.Blk, BVAdd(r.Off, BV(int64(k), 64)), v)
+				x.storeHeapCell(st, BVAdd(r.Blk, BV(int64(r.Tags[k]), 32)), BVAdd(r.Off, BV(int64(r.Offs[k]), 64)), v)
 			}
 			continue
 		}
-		seen := map[*Sort]bool{}
-		for _, srt := range r.Sorts {
-			if seen[srt] {
+		type tsk struct {
+			tag int
+			s   *Sort
+		}
+		seen := map[tsk]bool{}
+		for ci, srt := range r.Sorts {
+			if seen[tsk{r.Tags[ci], srt}] {
 				continue
 			}
-			seen[srt] = true
+			seen[tsk{r.Tags[ci], srt}] = true
 			h := x.heapOf(st, srt)
-			inner := Select(h, r.Blk)
-			ninner := UF(fmt.Sprintf("%s!m%d_arr%d", ufn, ri+1, srt.W), ArrS(BV64, srt), fp...)
+			rblk := BVAdd(r.Blk, BV(int64(r.Tags[ci]), 32))
+			inner := Select(h, rblk)
+			ufarr := UF(fmt.Sprintf("%s!m%d_arr%d_%d", ufn, ri+1, srt.W, r.Tags[ci]), ArrS(BV64, srt), fp...)
+			ninner := Fresh(fmt.Sprintf("%s.m%d!arr", sanitize(key), ri+1), ArrS(BV64, srt))
+			x.assume(True(), Eq(ninner, ufarr))
 			o := Fresh("o", BV64)
 			in := And(ULE(r.Off, o), ULT(o, BVAdd(r.Off, r.N)))
 			ax := ForallPat([]*Term{o}, Implies(Not(in), Eq(Select(ninner, o), Select(inner, o))), []*Term{Select(ninner, o)})
 			x.assume(True(), ax)
-			st.Heap[srt] = Store(h, r.Blk, ninner)
+			st.Heap[srt] = Store(h, rblk, ninner)
 		}
 	}
 	var res Val
@@ -456,6 +499,7 @@ func (x *Exec) callContract(st *State, fi *FuncInfo, args []Val, pos token.Pos, 
 			res.C[k] = UF(fmt.Sprintf("%s!r%d", ufn, k), srt, fp...)
 		}
 		x.typeInv(st, resT, res.C)
+		res.C = x.normPtrs(st, resT, res.C)
 	}
 	x.calls = append(x.calls, &callRec{Key: key, FI: fi, Args: args, FP: fp, Res: res, Guard: st.G})
 	for k, g := range fi.Ens {
@@ -751,6 +795,7 @@ func (x *Exec) loopHead(fr *Frame, ld *loopData, st *State) {
 			name = al.Name()
 		}
 		fc := x.freshCells(fmt.Sprintf("L%d.%s", ld.ord, name), t)
+		fc = x.normPtrs(st, t, fc)
 		if _, isLoc := st.Loc[id]; isLoc {
 			st.Loc[id] = fc
 		} else {
@@ -772,17 +817,18 @@ func (x *Exec) loopHead(fr *Frame, ld *loopData, st *State) {
 		}
 		t := x.evalGen(g, st, x.genArgs(g, x.entryArgs, nil, x.olds, fr, st))
 		x.assume(st.G, t.C[0])
+		x.learnDistinct(t.C[0])
 	}
+	// cover: the loop head is reachable under the invariant
+	x.cover(fmt.Sprintf("loop%d/cover", ld.ord), st)
 	for _, g := range x.Top.LoopSplit[ld.ord] {
-		x.splits = append(x.splits, x.evalGen(g, st, x.genArgs(g, x.entryArgs, nil, x.olds, fr, st)).C[0])
+		x.applySplit(st, x.evalGen(g, st, x.genArgs(g, x.entryArgs, nil, x.olds, fr, st)).C[0])
 	}
 	if g := x.Top.LoopDec[ld.ord]; g != nil {
 		ld.dec0 = x.evalGen(g, st, x.genArgs(g, x.entryArgs, nil, x.olds, fr, st)).C[0]
 	} else {
 		ld.dec0 = nil
 	}
-	// cover: the loop head is reachable under the invariant
-	x.cover(fmt.Sprintf("loop%d/cover", ld.ord), st)
 }
 
 func (x *Exec) cover(site string, st *State) {
@@ -864,7 +910,7 @@ func (x *Exec) verifyFunc() (err error) {
 		switch t.Underlying().(type) {
 		case *types.Pointer, *types.Slice:
 			blk := args[i].C[0]
-			x.assume(True(), Or(Eq(blk, BV(0, 32)), UGE(blk, BV(paramBlkBase, 32))))
+			x.assume(True(), And(Or(Eq(blk, BV(0, 32)), UGE(blk, BV(paramBlkBase, 32))), Eq(BVAnd(blk, BV(15, 32)), BV(0, 32)), ULE(blk, BV(0xfffffff0, 32))))
 			if r := regionOfTyped(t, args[i]); r != nil {
 				preg = append(preg, *r)
 			}
@@ -873,9 +919,10 @@ func (x *Exec) verifyFunc() (err error) {
 			}
 		case *types.Interface:
 			blk := args[i].C[1]
-			x.assume(True(), Or(Eq(blk, BV(0, 32)), UGE(blk, BV(paramBlkBase, 32))))
+			x.assume(True(), And(Or(Eq(blk, BV(0, 32)), UGE(blk, BV(paramBlkBase, 32))), Eq(BVAnd(blk, BV(15, 32)), BV(0, 32)), ULE(blk, BV(0xfffffff0, 32))))
 		}
 		x.typeInv(st, t, args[i].C)
+		args[i].C = x.normPtrs(st, t, args[i].C)
 	}
 	// A-ALIAS: memory regions of distinct pointer / slice parameters are disjoint,
 	// except that read-only byte buffers may overlap each other.
@@ -901,11 +948,12 @@ func (x *Exec) verifyFunc() (err error) {
 		}
 		t := x.evalGen(g, st, x.genArgs(g, args, nil, nil, nil, st))
 		x.assume(True(), t.C[0])
+		x.learnDistinct(t.C[0])
 	}
 	x.cover("requires/cover", st)
 	x.olds = x.snapshotOlds(fi, st, args)
 	for _, g := range fi.Split {
-		x.splits = append(x.splits, x.evalGen(g, st, x.genArgs(g, args, nil, nil, nil, st)).C[0])
+		x.applySplit(st, x.evalGen(g, st, x.genArgs(g, args, nil, nil, nil, st)).C[0])
 	}
 	// modifies regions
 	for _, g := range fi.Mod {
@@ -915,7 +963,7 @@ func (x *Exec) verifyFunc() (err error) {
 			x.fail("modifies clause does not denote a pointer or slice")
 		}
 		if sl, ok := v.If.T.Underlying().(*types.Slice); ok {
-			es := sizeOf(sl.Elem())
+			es := strideOf(sl.Elem())
 			r.N = BVMul(v.If.V.C[2], BV(int64(es), 64))
 		}
 		x.regions = append(x.regions, *r)
@@ -979,10 +1027,9 @@ func (x *Exec) footprint(st *State, fi *FuncInfo, args []Val) []*Term {
 	var out []*Term
 	seen := map[*Term]bool{}
 	add := func(t *Term) {
-		if !seen[t] {
-			seen[t] = true
-			out = append(out, t)
-		}
+		// no de-duplication: the arity of the callee's summary functions must be the same at every call
+		_ = seen
+		out = append(out, t)
 	}
 	var visit func(t types.Type, c []*Term, depth int)
 	visit = func(t types.Type, c []*Term, depth int) {
@@ -1056,4 +1103,52 @@ func (x *Exec) footprint(st *State, fi *FuncInfo, args []Val) []*Term {
 		visit(fi.PTypes[i], a.C, 0)
 	}
 	return out
+}
+
+// learnDistinct registers block disequalities that are top-level conjuncts of an assumed fact, so that
+// reads and writes through those blocks are separated syntactically. For loop invariants the fact
+// holds in every state derived from the loop head, which is where the head's fresh terms occur.
+func (x *Exec) learnDistinct(t *Term) {
+	if os.Getenv("GOVC_DEBUG") != "" {
+		for _, c := range conjuncts(t) {
+			fmt.Fprintf(os.Stderr, "conj %s\n", truncate(c.String(), 160))
+		}
+	}
+	for _, c := range conjuncts(t) {
+		if c.Op == "not" && c.Args[0].Op == "=" {
+			a, b := c.Args[0].Args[0], c.Args[0].Args[1]
+			if a.S == BV32 && b.S == BV32 {
+				declareDistinct(a, b)
+				if os.Getenv("GOVC_DEBUG") != "" {
+					fmt.Fprintf(os.Stderr, "learnDistinct %s  /  %s\n", a, b)
+				}
+			}
+		}
+	}
+}
+
+// applySplit: execution-level case analysis. In case number x.caseMask the k-th split condition is
+// assumed true (bit set) or false, and becomes a fact the term simplifier uses from here on.
+func (x *Exec) applySplit(st *State, cond *Term) {
+	k := x.nSplits
+	x.nSplits++
+	c := cond
+	if x.caseMask&(1<<k) == 0 {
+		c = Not(cond)
+	}
+	x.assume(st.G, c)
+	if !c.IsTrue() && !c.IsFalse() {
+		setFact(c)
+	}
+	if c.IsFalse() {
+		st.G = False()
+	}
+	x.caseTag = fmt.Sprintf("[case %0*b]", x.nSplits, x.caseMask&((1<<x.nSplits)-1))
+}
+
+// symbolicBase: the offset is not (variable + constant); objects at such offsets (slice elements at a
+// symbolic index) are havoc'd as a fresh array with a frame axiom instead of a chain of stores.
+func symbolicBase(off *Term) bool {
+	base, _ := linear(off)
+	return base != nil && base.Op != "var"
 }
